@@ -142,13 +142,15 @@ def bg_correct_self(c):
     c.ensures("spacing-mismatch-refused", c.outcome(ip.bg_correct, raw, other_sp).raised(BadImage))
 
 
-@contract("C18", "zero_filter", [I + "zero_filter"], bounded="3x3 images; which pixel is dead is enumerated, values symbolic",
+@contract("C18", "zero_filter", [I + "zero_filter"], bounded="3x3 images; which pixel is dead is enumerated (interior, each edge, each corner), values symbolic",
           max_paths=200)
 def zero_filter(c):
     """positive pixels untouched; isolated interior zero -> mean of its 4 neighbours; edge zero -> mean of its 2 neighbours
     along the edge; a dead corner is refused; metadata kept"""
-    which = c.choice("dead", ["none", "interior", "edge-top", "edge-left", "corner", "corner-far"])
-    pos = {"none": None, "interior": (1, 1), "edge-top": (0, 1), "edge-left": (1, 0), "corner": (0, 0), "corner-far": (2, 2)}[which]
+    which = c.choice("dead", ["none", "interior", "edge-top", "edge-left", "edge-bottom", "edge-right",
+                              "corner-00", "corner-02", "corner-20", "corner-22"])
+    pos = {"none": None, "interior": (1, 1), "edge-top": (0, 1), "edge-left": (1, 0), "edge-bottom": (2, 1), "edge-right": (1, 2),
+           "corner-00": (0, 0), "corner-02": (0, 2), "corner-20": (2, 0), "corner-22": (2, 2)}[which]
     vals = np.empty((3, 3), dtype=object if c.symbolic else float)
     for i in range(3):
         for j in range(3):
@@ -174,6 +176,10 @@ def zero_filter(c):
         c.ensures("edge-zero-is-mean-of-2-along-edge", c.eq(v[0, 1], (vals[0, 0] + vals[0, 2]) / 2))
     if which == "edge-left":
         c.ensures("edge-zero-is-mean-of-2-along-edge", c.eq(v[1, 0], (vals[0, 0] + vals[2, 0]) / 2))
+    if which == "edge-bottom":
+        c.ensures("edge-zero-is-mean-of-2-along-edge", c.eq(v[2, 1], (vals[2, 0] + vals[2, 2]) / 2))
+    if which == "edge-right":
+        c.ensures("edge-zero-is-mean-of-2-along-edge", c.eq(v[1, 2], (vals[0, 2] + vals[2, 2]) / 2))
     c.ensures("metadata-kept", _same_meta(c, out, im))
 
 
@@ -296,8 +302,8 @@ def accumulator_step(c):
     c.ensures("step-n", c.eq(st._n, n + 1))
     c.ensures("step-mean", c.eq(st._running_mean, (S1 + x) / (n + 1)))
     c.ensures("step-M2", c.eq(st._running_var, (S2 + x * x) - (S1 + x) * (S1 + x) / (n + 1)))
-    # consequences of the invariant
-    c.requires((S2 + x * x) - (S1 + x) * (S1 + x) / (n + 1) >= 0)
+    # consequences of the invariant (the variance estimate the code takes the root of is non-negative for real data)
+    c.requires(st._running_var / st._n >= 0)
     m, sd = c.call(st.mean), c.call(st.std)
     c.ensures("mean-is-batch-mean", c.eq(m, (S1 + x) / (n + 1)))
     c.ensures("std-is-batch-std", c.and_(c.ge(sd, 0), c.eq(sd * sd, (S2 + x * x) / (n + 1) - ((S1 + x) / (n + 1)) ** 2, tol=1e-5)))
@@ -322,3 +328,36 @@ def accumulator_order(c):
     first = ims[order[0]]
     c.ensures("metadata-kept", c.and_(mean.dims == first.dims, c.eq(mean.x.values, first.x.values),
                                       c.eq(mean.attrs['medium_index'], 1.33)))
+
+
+@contract("C18", "make_center_priors", ["holopy.core.prior:make_center_priors", "holopy.core.metadata:get_spacing",
+                                        "holopy.core.metadata:get_extents"],
+          bounded="4x5 image; pixel spacing, image origin and the centre-finder result symbolic")
+def make_center_priors(c):
+    """default centre priors: Gaussian in x and y at (centre-finder pixel) * spacing + image origin with sd = uncertainty *
+    spacing per axis, Uniform in z over (0, multiple of the image extent) - the centre finder itself is a stub (out of reach)"""
+    import holopy.core.prior as pr
+    from holopy.core.prior import Gaussian, Uniform
+    sx, sy = c.real("sx", pos=True, sample=(0.05, 0.5)), c.real("sy", pos=True, sample=(0.05, 0.5))
+    x0, y0 = c.real("x0", sample=(-3, 3)), c.real("y0", sample=(-3, 3))
+    cx, cy = c.real("cx", sample=(0, 3)), c.real("cy", sample=(0, 4))
+    unc = c.real("uncertainty", pos=True, sample=(0.5, 3))
+    nx, ny = 4, 5
+    im = data_grid(np.ones((nx, ny)), spacing=0.1, **META_ATTRS)
+    A = (lambda v: np.array(v, dtype=object if c.symbolic else float))
+    im = im.assign_coords(x=A([x0 + i * sx for i in range(nx)]), y=A([y0 + j * sy for j in range(ny)]))
+    saved = pr.center_find
+    pr.center_find = lambda image: A([cx, cy])
+    try:
+        px, py, pz = c.call(pr.make_center_priors, im, xy_uncertainty_pixels=unc)
+        zr = c.call(pr.make_center_priors, im, z_range_units=(1.5, 7.5))[2]
+    finally:
+        pr.center_find = saved
+    c.ensures("types", isinstance(px, Gaussian) and isinstance(py, Gaussian) and isinstance(pz, Uniform))
+    c.ensures("x-centre", c.eq(px.mu, cx * sx + x0))
+    c.ensures("y-centre", c.eq(py.mu, cy * sy + y0))
+    c.ensures("xy-width", c.and_(c.eq(px.sd, unc * sx), c.eq(py.sd, unc * sy)))
+    ext = c.max(sx * nx, sy * ny)
+    c.ensures("z-range", c.and_(c.eq(pz.lower_bound, 0), c.eq(pz.upper_bound, ext * 5)))
+    c.ensures("z-range-in-units", c.and_(c.eq(zr.lower_bound, 1.5), c.eq(zr.upper_bound, 7.5)))
+    c.canary("origin-ignored", c.eq(py.mu, cy * sy))
